@@ -1567,7 +1567,21 @@ func (in *inliner) inlineCall(p *packages.Package, file *ast.File, stack []ast.N
 				ast.Inspect(l, func(n ast.Node) bool {
 					switch x := n.(type) {
 					case *ast.CallExpr:
-						bad = true
+						// len / cap of a local variable: the helper cannot reach the variable, the value is the same
+						// before and after it
+						pure := false
+						if id, ok := x.Fun.(*ast.Ident); ok && (id.Name == "len" || id.Name == "cap") && len(x.Args) == 1 {
+							if _, isBuiltin := p.TypesInfo.Uses[id].(*types.Builtin); isBuiltin {
+								if arg, ok := x.Args[0].(*ast.Ident); ok {
+									if v, ok := p.TypesInfo.Uses[arg].(*types.Var); ok && !v.IsField() && v.Parent() != nil && v.Parent() != v.Pkg().Scope() {
+										pure = true
+									}
+								}
+							}
+						}
+						if !pure {
+							bad = true
+						}
 					case *ast.UnaryExpr:
 						if x.Op == token.ARROW {
 							bad = true
